@@ -409,4 +409,23 @@ def dumpCapped (contentLength : Int) (body : Bytes) : R Bytes :=
     pure (c ++ asc ['\n','\n','(','t','r','u','n','c','a','t','e','d',' ','b','o','d','y',')','\n'])
   else pure peek
 
+/-! ### per-packet processing of an anonymous WHIP publisher: `InboundTrack.stripTWCCExtension` -/
+
+/-- what pion/rtp reports about a parsed packet: extension flag, profile, ids of the extension elements -/
+structure RtpExt where
+  ext : Bool
+  profile : Nat
+  ids : List Nat
+  deriving DecidableEq, Repr
+
+/-- `stripTWCCExtension`.  `getNonNil` = oracle for `pkt.GetExtension(twccID) != nil`.
+`pkt.DelExtension(id)` returns an error — which the code turns into `panic(err)` in the track reader
+goroutine — exactly when no element has that id. -/
+def stripTWCC (twccID : Nat) (p : RtpExt) (getNonNil : Bool) : R RtpExt :=
+  if twccID == 0 || !getNonNil then pure p
+  else if !p.ids.contains twccID then .panic
+  else
+    let ids' := p.ids.erase twccID
+    if ids'.isEmpty then pure ⟨false, 0, []⟩ else pure ⟨p.ext, p.profile, ids'⟩
+
 end MtxVerif.C35
